@@ -251,6 +251,26 @@ def run(prog, chk):
                 if resets and any(f.find_path((tedge, 0), {f.node_pos(r)}, after_src=False) is not None for r in resets):
                     okp = True
         rets = [i for i, n in enumerate(f.nodes) if n["k"] == "ReturnStmt" and n["c"] and fin.eval_expr(f, n["c"][0], {}) == -1]
+        if not (okp and rets):
+            # decision table over (result of the system call, errno): would-block -> -1 with errno reset; other error -> -1, errno kept
+            prim = [c_ for c_ in q.calls(f) if f.nodes[c_].get("callee") in ("send", "recv")]
+            ek = [fin.key(f, n_["i"]) for n_ in f.nodes if n_["k"] == "UnaryOperator" and n_.get("op") == "*" and "__errno_location" in f.r(n_["i"])]
+            resets = [s_.node for s_ in q.stores(f) if "__errno_location" in f.r(s_.lhs) and q.is_zero(f, s_.rhs)]
+            tab_ok = bool(prim) and bool(ek) and bool(resets)
+            for r_, e_, want_ret, want_reset in ((-1, 11, -1, True), (-1, 104, -1, False)):
+                if not tab_ok:
+                    break
+                val_ = {fin.key(f, prim[0]): r_}
+                val_.update({k_: e_ for k_ in ek})
+                seen_, end_, fv_ = fin.walk_vals(f, f.entry, val_)
+                if not isinstance(end_, int):
+                    tab_ok = False
+                    break
+                got_ = fin.eval_expr(f, f.nodes[end_]["c"][0], dict(fv_, **{fin.key(f, prim[0]): r_})) if f.nodes[end_]["c"] else None
+                if got_ != want_ret or any(x_ in seen_ for x_ in resets) != want_reset:
+                    tab_ok = False
+            if tab_ok:
+                okp, rets = True, [1]
         if okp and rets:
             chk.ok("C13.e", f, "%s: would-block -> error 0, return -1" % nm, "%s:%s" % (f.file, f.line), "errno reset on the EWOULDBLOCK/EAGAIN edge", evals=2)
         else:
